@@ -1,6 +1,233 @@
+// Generators for the sparse (Elias-Fano) vector: C02 (set semantics), C15 (multisets), C16 (builders), and the
+// sparse parts of C09 / C10.
 use crate::gen::*;
-pub fn c02(_g: &mut Gen) { panic!("harness: generator c02 not built yet"); }
-pub fn c15(_g: &mut Gen) { panic!("harness: generator c15 not built yet"); }
-pub fn c16(_g: &mut Gen) { panic!("harness: generator c16 not built yet"); }
-pub fn c09_sp(_g: &mut Gen) {}
-pub fn c10_sp(_g: &mut Gen) {}
+use crate::gen_bv::{call_sequences, de_alphabet, fwd_alphabet};
+
+fn vals_str(v: &[u64]) -> String { v.iter().map(|x| x.to_string()).collect::<Vec<_>>().join(" ") }
+
+fn sp_queries(g: &mut Gen, name: &str, n: u64, vals: &[u64], samples: usize, set_mode: bool, lines: &mut Vec<String>) {
+    let m = vals.len() as u64;
+    lines.push(format!("sp {} len", name)); lines.push(format!("sp {} ones", name)); lines.push(format!("sp {} zeros", name));
+    let mut args: Vec<u64> = vec![0, 1, n.saturating_sub(1), n, n.saturating_add(1), n / 2];
+    for v in vals.iter().take(40) { args.push(v.saturating_sub(1)); args.push(*v); args.push(v.saturating_add(1)); }
+    for _ in 0..samples { args.push(g.rng.below(n.saturating_add(2).max(1))); }
+    args.sort(); args.dedup();
+    for a in &args {
+        if *a < n { lines.push(format!("sp {} get {}", name, a)); }
+        lines.push(format!("sp {} rank {}", name, a));
+        if *a <= n && set_mode { lines.push(format!("sp {} rank0 {}", name, a)); }
+        lines.push(format!("sp {} pred {}", name, a));
+        lines.push(format!("sp {} succ {}", name, a));
+    }
+    let mut ranks: Vec<u64> = vec![0, 1, m.saturating_sub(1), m, m + 1, m / 2, 15, 16, 17];
+    for _ in 0..samples { ranks.push(g.rng.below(m + 2)); }
+    ranks.sort(); ranks.dedup();
+    for r in &ranks { lines.push(format!("sp {} select {}", name, r)); }
+    if set_mode {
+        let z = n - m;
+        let mut zr: Vec<u64> = vec![0, 1, z.saturating_sub(1), z, z.saturating_add(1), z / 2];
+        for v in vals.iter().take(40) { zr.push(v.saturating_sub(1)); zr.push(*v); }
+        for _ in 0..samples { zr.push(g.rng.below(z.saturating_add(2).max(1))); }
+        zr.sort(); zr.dedup();
+        for r in &zr { lines.push(format!("sp {} select0 {}", name, r)); }
+    }
+}
+
+fn random_set(g: &mut Gen, n: u64, m: u64) -> Vec<u64> {
+    // m distinct sorted values below n
+    let mut v: Vec<u64> = Vec::new();
+    if m * 2 > n {
+        let mut all: Vec<u64> = (0..n).collect();
+        while (all.len() as u64) > m { let i = g.rng.below(all.len() as u64) as usize; all.remove(i); }
+        return all;
+    }
+    while (v.len() as u64) < m { let x = g.rng.below(n); if !v.contains(&x) { v.push(x); } }
+    v.sort();
+    v
+}
+
+pub fn c02(g: &mut Gen) {
+    // exhaustive: every universe up to N, every subset, every argument
+    let maxn = if g.thorough { 10 } else { 8 };
+    for n in 0..=maxn {
+        for code in 0..(1u32 << n) {
+            let vals: Vec<u64> = (0..n).filter(|i| (code >> i) & 1 == 1).map(|i| i as u64).collect();
+            let mut lines = vec![format!("sp A build {} 0 {}", n, vals_str(&vals))];
+            let m = vals.len() as u64;
+            lines.push("sp A len".to_string()); lines.push("sp A ones".to_string()); lines.push("sp A zeros".to_string());
+            for i in 0..(n as u64 + 3) {
+                if i < n as u64 { lines.push(format!("sp A get {}", i)); }
+                lines.push(format!("sp A rank {}", i));
+                if i <= n as u64 { lines.push(format!("sp A rank0 {}", i)); }
+                lines.push(format!("sp A pred {}", i));
+                lines.push(format!("sp A succ {}", i));
+                if i <= m + 1 { lines.push(format!("sp A select {}", i)); }
+                if i <= n as u64 - m + 1 { lines.push(format!("sp A select0 {}", i)); }
+            }
+            g.group(lines);
+        }
+    }
+    // every ratio of set bits to universe: empty, one bit, sparse, dense, full; positions at both ends
+    let samples = if g.thorough { 80 } else { 20 };
+    let universes: Vec<u64> = if g.thorough { vec![1, 2, 63, 64, 65, 100, 1000, 4096, 10_000, 100_000, 1_000_000] } else { vec![1, 64, 65, 1000, 4096, 50_000] };
+    for n in universes {
+        let mut ms: Vec<u64> = vec![0, 1, 2, 17, 18, n / 1000, n / 100, n / 10, n / 3, n / 2, n - 1, n];
+        ms.retain(|m| *m <= n && *m <= 30_000); ms.sort(); ms.dedup();
+        for m in ms {
+            let mut vals = random_set(g, n, m);
+            if m >= 2 && g.rng.chance(1, 2) && n > 2 { vals[0] = 0; let l = vals.len(); vals[l - 1] = n - 1; vals.sort(); vals.dedup(); }
+            let mut lines = vec![format!("sp A build {} 0 {}", n, vals_str(&vals))];
+            sp_queries(g, "A", n, &vals, samples, true, &mut lines);
+            if vals.len() <= 2000 { lines.push("sp A ser".to_string()); }
+            g.group(lines);
+        }
+    }
+    // bucket-boundary stress: values ≡ 0 and ≡ 2^w − 1 modulo powers of two, more than 16 zero runs in adversarial layouts
+    for k in [3u64, 5, 8, 12] {
+        let step = 1u64 << k;
+        let n = step * 40 + 7;
+        let mut vals: Vec<u64> = Vec::new();
+        for b in 0..40 { if b % 3 != 1 { vals.push(b * step); } if b % 2 == 0 { vals.push(b * step + step - 1); } if b % 5 == 0 { vals.push(b * step + 1); } }
+        vals.sort(); vals.dedup();
+        let mut lines = vec![format!("sp A build {} 0 {}", n, vals_str(&vals))];
+        sp_queries(g, "A", n, &vals, samples, true, &mut lines);
+        g.group(lines);
+    }
+    // huge universes with few ones (bounded by memory only through n / 2^w)
+    for n in [1u64 << 32, 1u64 << 63, MAXU - 1, MAXU] {
+        for m in [1u64, 2, 17, 64] {
+            let mut vals: Vec<u64> = (0..m).map(|_| g.rng.below(n)).collect();
+            if m >= 2 { vals[0] = 0; vals[1] = n - 1; }
+            vals.sort(); vals.dedup();
+            let mut lines = vec![format!("sp A build {} 0 {}", n, vals_str(&vals))];
+            sp_queries(g, "A", n, &vals, samples / 2, true, &mut lines);
+            lines.push("sp A ser".to_string());
+            g.group(lines);
+        }
+    }
+    // empty vectors over moderately large universes (w = 1, so the bucket sequence has n/2 bits)
+    for n in [1u64 << 16, (1u64 << 20) + 1] {
+        let mut lines = vec![format!("sp A build {} 0", n)];
+        sp_queries(g, "A", n, &[], 10, true, &mut lines);
+        g.group(lines);
+    }
+    // rejected constructions
+    g.group(vec!["sp A build 5 0 0 1 2 3 4 5".to_string(), "sp A build 5 0 3 3".to_string(), "sp A build 5 0 4 2".to_string(),
+                 "sp A build 5 0 1 7".to_string(), "sp A build 3 0 0 1 2 3".to_string()]);
+}
+
+/// all non-decreasing sequences of `k` values below `n`
+fn multisets(n: u64, k: usize) -> Vec<Vec<u64>> {
+    let mut out: Vec<Vec<u64>> = vec![vec![]];
+    for _ in 0..k {
+        let mut next = Vec::new();
+        for s in &out { let lo = s.last().cloned().unwrap_or(0); for v in lo..n { let mut t = s.clone(); t.push(v); next.push(t); } }
+        out = next;
+    }
+    out
+}
+
+pub fn c15(g: &mut Gen) {
+    let (maxn, maxk) = if g.thorough { (6u64, 6usize) } else { (5, 5) };
+    for n in 1..=maxn {
+        for k in 0..=maxk {
+            for vals in multisets(n, k) {
+                let mut lines = vec![format!("sp A build {} 1 {}", n, vals_str(&vals))];
+                lines.push("sp A ones".to_string()); lines.push("sp A zeros".to_string()); lines.push("sp A len".to_string());
+                for i in 0..(n + 2) {
+                    if i < n { lines.push(format!("sp A get {}", i)); }
+                    lines.push(format!("sp A rank {}", i));
+                    lines.push(format!("sp A pred {}", i));
+                    lines.push(format!("sp A succ {}", i));
+                }
+                for r in 0..(k as u64 + 2) { lines.push(format!("sp A select {}", r)); }
+                let kk = k as u64;
+                lines.push(format!("sp A it one : {} l n b", vec!["n"; k].join(" ")));
+                lines.push(format!("sp A it one : {} l b n", vec!["b"; k].join(" ")));
+                lines.push(format!("sp A it one : n b N{} l", kk / 2));
+                lines.push(format!("sp A it bits : {} l n b", vec!["n"; n as usize].join(" ")));
+                lines.push(format!("sp A it bits : {} l b n", vec!["b"; n as usize].join(" ")));
+                lines.push("sp A it bits : n b n b b n l n b".to_string());
+                g.group(lines);
+            }
+        }
+    }
+    // long duplicate runs at bucket boundaries, at 0 and at n−1; overfull multisets
+    for (n, pattern) in [(64u64, vec![(0u64, 20usize), (31, 1), (32, 30), (63, 25)]), (1000, vec![(0, 3), (255, 40), (256, 40), (999, 100)]),
+                         (5, vec![(0, 10), (4, 10)]), (3, vec![(1, 50)]), (1 << 40, vec![(0, 5), ((1 << 39) - 1, 5), (1 << 39, 5), ((1 << 40) - 1, 5)])] {
+        let mut vals: Vec<u64> = Vec::new();
+        for (v, c) in pattern { for _ in 0..c { vals.push(v); } }
+        let mut lines = vec![format!("sp A build {} 1 {}", n, vals_str(&vals))];
+        sp_queries(g, "A", n, &vals, 15, false, &mut lines);
+        let m = vals.len();
+        lines.push(format!("sp A it one : {} l n b", vec!["n b"; m / 2 + 1].join(" ")));
+        if n <= 1000 {
+            lines.push(format!("sp A it bits : {} l", vec!["n b"; (n as usize) / 2 + 1].join(" ")));
+            lines.push(format!("sp A it bits : {} l", vec!["n"; n as usize + 1].join(" ")));
+            lines.push(format!("sp A it bits : {} l", vec!["b"; n as usize + 1].join(" ")));
+        }
+        lines.push("sp A ser".to_string());
+        g.group(lines);
+    }
+    // try_from_iter accepts exactly the non-decreasing sequences and sizes the universe to last + 1
+    let mut lines = Vec::new();
+    for vals in [vec![], vec![0u64], vec![5], vec![1, 1, 1], vec![0, 3, 3, 9], vec![3, 2], vec![1, 5, 4, 9], vec![7, 7, 6], vec![0, 0, 0, 0, 0, 0, 0, 0]] {
+        lines.push(format!("sp I from_iter {}", vals_str(&vals)));
+        if vals.windows(2).all(|w| w[0] <= w[1]) { lines.push("sp I len".to_string()); lines.push("sp I ones".to_string()); lines.push("sp I select 0".to_string()); }
+    }
+    g.group(lines);
+}
+
+pub fn c16(g: &mut Gen) {
+    // all call sequences up to length L over an alphabet of valid and invalid calls, several (universe, capacity)
+    let depth = if g.thorough { 5 } else { 4 };
+    for (n, cap, multi) in [(5u64, 3u64, 0), (5, 5, 0), (4, 0, 0), (3, 4, 1), (6, 3, 1), (1, 1, 0)] {
+        let mut alphabet: Vec<String> = Vec::new();
+        for i in [0u64, 1, 2, n - 1, n, n + 1, MAXU] { alphabet.push(format!("t{}", i)); }
+        alphabet.sort(); alphabet.dedup();
+        alphabet.push(format!("s{}", n / 2)); alphabet.push(format!("e{},{}", 1, n - 1)); alphabet.push("c".to_string());
+        let mut lines = Vec::new();
+        for d in 0..=depth.min(if cap == 0 { 2 } else { depth }) {
+            for seq in call_sequences(&alphabet, d) { lines.push(format!("sp - builder {} {} {} : {} c", n, cap, multi, seq.join(" "))); }
+        }
+        g.group(lines);
+    }
+    g.group(vec!["sp - builder 5 6 0 : t0".to_string(), "sp - builder 5 6 1 : t0 t0 t0 t0 t0 t0 c".to_string()]);
+    crate::gen_rl::c16_rl(g);
+}
+
+pub fn c09_sp(g: &mut Gen) {
+    for (n, vals) in [(0u64, vec![]), (1, vec![0u64]), (10, vec![]), (100, vec![0, 50, 99]), (100, vec![99]), (1000, (0..1000).step_by(7).collect::<Vec<u64>>()), (MAXU, vec![0, 1, MAXU - 1])] {
+        let m = vals.len() as u64;
+        let mut lines = vec![format!("sp A build {} 0 {}", n, vals_str(&vals))];
+        for a in boundary_values(n) {
+            lines.push(format!("sp A rank {}", a)); lines.push(format!("sp A pred {}", a)); lines.push(format!("sp A succ {}", a));
+            lines.push(format!("sp A it succ {} : l n n", a)); lines.push(format!("sp A it pred {} : l n n", a));
+        }
+        for a in boundary_values(m) {
+            lines.push(format!("sp A select {}", a)); lines.push(format!("sp A it sel {} : l n n", a));
+            lines.push(format!("sp A it one : N{} l n b", a)); lines.push(format!("sp A it one : n B{} l n b", a));
+        }
+        for a in boundary_values(n - m) { lines.push(format!("sp A select0 {}", a)); lines.push(format!("sp A it sel0 {} : l n n", a)); }
+        if n <= 1000 { for a in boundary_values(n) { if a <= 2000 { lines.push(format!("sp A it bits : N{} l n b", a)); } } }
+        g.group(lines);
+    }
+}
+
+pub fn c10_sp(g: &mut Gen) {
+    let depth = if g.thorough { 4 } else { 3 };
+    for (n, multi, vals) in [(0u64, 0, vec![]), (1, 0, vec![0u64]), (6, 0, vec![1, 2, 5]), (9, 1, vec![0, 0, 3, 3, 3, 8]), (40, 0, vec![0, 7, 8, 9, 31, 32, 39]), (5, 1, vec![4, 4, 4, 4, 4, 4, 4])] {
+        let m = vals.len() as u64;
+        let mut lines = vec![format!("sp A build {} {} {}", n, multi, vals_str(&vals))];
+        for seq in call_sequences(&de_alphabet(m), depth) { lines.push(format!("sp A it one : {}", seq.join(" "))); }
+        let bits_alpha: Vec<String> = de_alphabet(n).into_iter().filter(|c| !c.ends_with(&MAXU.to_string())).collect();
+        for seq in call_sequences(&bits_alpha, depth - 1) { lines.push(format!("sp A it bits : {}", seq.join(" "))); }
+        if multi == 0 {
+            for seq in call_sequences(&fwd_alphabet(n - m), depth - 1) { lines.push(format!("sp A it zero : {}", seq.join(" "))); }
+            for r in 0..=(n - m + 1) { lines.push(format!("sp A it sel0 {} : l n n N1 l n", r)); }
+        }
+        for r in 0..=(m + 1) { for seq in call_sequences(&de_alphabet(m.saturating_sub(r)), 2) { lines.push(format!("sp A it sel {} : {} n l", r, seq.join(" "))); } }
+        for x in 0..=(n + 1) { lines.push(format!("sp A it pred {} : l n n b l n", x)); lines.push(format!("sp A it succ {} : l n n b l n", x)); }
+        g.group(lines);
+    }
+}
